@@ -1473,7 +1473,12 @@ class DocutilsRenderer(RendererProtocol):
         """Despite the name, this is actually a footnote definition, e.g. `[^a]: ...`"""
         target = token.meta["label"]
 
-        if target in self.document.nameids:
+        if any(
+            target in footnote["names"] or target in footnote.get("dupnames", [])
+            for footnote in self.document.footnotes + self.document.autofootnotes
+        ):
+            # note only another footnote with this label makes it a duplicate
+            # (not e.g. a heading, whose implicit name happens to equal the label)
             # note we chose to directly omit these footnotes in the parser,
             # rather than let docutils/sphinx handle them, since otherwise you end up with a confusing warning:
             # WARNING: Duplicate explicit target name: "x". [docutils]
